@@ -60,10 +60,15 @@ def run(ctx):
                 ctx.nontrivial(kind.encode() + U(s))
     # ---- display correspondence and the round trip
     names = [None, "Kayo", "K.", " x ", 'a"b\\c', "a\0b", "a\nb", "a\rb", "é", "9", "Doe, John", "", " ", "a\tb", "a  b", "a \t b", " a ", "a b", "(c)", "<x>", "a@b", "x" * 200, "😀", "a.b", "\\", '"', "a\x01b", "\x7f", "tab\there", "trail. ", "=?utf-8?b?QQ==?="]
+    # code points whose low byte is an ASCII special (catches byte-truncating classifications), quoted and bare
+    for base in (0x100, 0x400, 0x4E00, 0x1F600):
+        for b in (0x00, 0x09, 0x0A, 0x0D, 0x20, 0x22, 0x28, 0x2C, 0x5C, 0x7F):
+            names += ["a," + chr(base + b), chr(base + b) + "x"]
+    names += ["end\\", "\\", 'q"', '"', "a\\\\", "dot.", "(", "x\\y\\"]
     for _ in range(300 if ctx.tier == "quick" else 6000):
         names.append("".join(rng.choice(["a", "B", " ", "  ", "\t", ".", ",", '"', "\\", "é", "(", "<", "@", "9", "-", "\0", "\n"]) for _ in range(rng.randint(1, 12))))
     addrs = ["a@x.org", "user.name+tag@sub.example.com", "é@example.com", "u@é.example", '"a b"@example.com', "x@[127.0.0.1]", "a@b"]
-    cases = [(n, a) for n in names for a in (addrs if n in names[:31] else addrs[:2])]
+    cases = [(n, a) for k, n in enumerate(names) for a in (addrs if k < 31 else addrs[:2])]
     dl = ["mbox.display\t%s\t%s" % ("!" if n is None else hx(U(n)), hx(U(a))) for n, a in cases]
     di, dm = run_impl(dl), run_model(dl)
     ctx.count(len(dl))
@@ -105,7 +110,7 @@ def run(ctx):
             else:
                 unexpl.append(("mailbox list round trip", "list=%r parsed=%s" % (lists[k][:4], p[:200])))
     # ---- header map operations
-    hnames = ["Subject", "subject", "SUBJECT", "X-A", "x-a", "To", "Comments"]
+    hnames = ["Subject", "subject", "SUBJECT", "SubJect", "X-A", "x-a", "X-a", "To", "tO", "Comments", "Message-ID", "Message-Id"]
     ol = []
     for _ in range(400 if ctx.tier == "quick" else 8000):
         ops = []
